@@ -461,14 +461,16 @@ func (p *Parser) parseSelectWithUnionWithParsedWith(pos token.Position, with []a
 		// Handle UNION after INTERSECT/EXCEPT
 		for p.currentIs(token.UNION) {
 			p.nextToken()
-			mode := "ALL"
+			// A bare UNION is recorded as such (the default mode applies), like parseSelectWithUnion does
+			mode := ""
 			if p.currentIs(token.ALL) {
+				mode = "ALL"
 				p.nextToken()
 			} else if p.currentIs(token.DISTINCT) {
 				mode = "DISTINCT"
 				p.nextToken()
 			}
-			query.UnionModes = append(query.UnionModes, mode)
+			query.UnionModes = append(query.UnionModes, "UNION "+mode)
 
 			var nextStmt ast.Statement
 			if p.currentIs(token.LPAREN) {
@@ -526,7 +528,8 @@ func (p *Parser) parseSelectWithUnionWithParsedWith(pos token.Position, with []a
 	// Handle UNION
 	for p.currentIs(token.UNION) {
 		p.nextToken()
-		mode := "ALL"
+		// A bare UNION is recorded as such (the default mode applies), like parseSelectWithUnion does
+		mode := ""
 		if p.currentIs(token.ALL) {
 			mode = "ALL"
 			p.nextToken()
@@ -534,7 +537,7 @@ func (p *Parser) parseSelectWithUnionWithParsedWith(pos token.Position, with []a
 			mode = "DISTINCT"
 			p.nextToken()
 		}
-		query.UnionModes = append(query.UnionModes, mode)
+		query.UnionModes = append(query.UnionModes, "UNION "+mode)
 
 		var nextStmt ast.Statement
 		if p.currentIs(token.LPAREN) {
